@@ -212,15 +212,18 @@ Section Proofs.
   Qed.
 
   (* the spec in bytewise form *)
-  Lemma ctr_spec_as_range data :
-    ctr_spec E nonce data = xor_list data (ks_range 0 (length data)).
+  Lemma ctr_spec_from_as_range B data :
+    ctr_spec_from E nonce B data = xor_list data (ks_range (16 * B) (length data)).
   Proof.
-    unfold ctr_spec, keystream_bytes. rewrite keystream_blocks_as_range.
-    change (16 * 0) with 0.
+    unfold ctr_spec_from, keystream_bytes_from. rewrite keystream_blocks_as_range.
     set (n := ((length data + 15) / 16)%nat).
     replace (16 * n)%nat with (length data + (16 * n - length data))%nat by (subst n; lia).
     rewrite ks_range_app. apply xor_list_trunc. symmetry. apply ks_range_length.
   Qed.
+
+  Lemma ctr_spec_as_range data :
+    ctr_spec E nonce data = xor_list data (ks_range 0 (length data)).
+  Proof. unfold ctr_spec. rewrite ctr_spec_from_as_range. reflexivity. Qed.
 
   Lemma ctr_spec_length data : length (ctr_spec E nonce data) = length data.
   Proof. rewrite ctr_spec_as_range. apply xor_list_length. rewrite ks_range_length. lia. Qed.
@@ -228,49 +231,51 @@ Section Proofs.
   (* ---------------------------------------------------------------- the invariant (M1) *)
   Definition st_wf (s : st) : Prop := length (buf s) = 16%nat /\ length (pblk s) = 16%nat.
 
-  (* total = number of bytes produced since init2.  Once a block has been generated the counter
-     block IS nonce || be64(index of the last generated block); before that only pblk[15] = 0xff
-     is known, pblk[8..14] are whatever they were *)
+  (* start = the stream position (a block boundary) at which the object was (re-)initialised:
+     0 for init2; 16*B for the harness's white-box seek.  total = the current stream position.
+     Once a block has been generated the counter block IS nonce || be64(index of the last
+     generated block); before that only pblk[15] = 0xff is known, pblk[8..14] are whatever
+     they were *)
+  Variable start : N.
+  Hypothesis start_aligned : start mod 16 = 0.
+
   Definition pblk_ok (total : N) (p : list N) : Prop :=
     length p = 16%nat /\ firstn 8 p = be64 nonce /\
-    (total = 0 -> nth 15 p 0 = 255) /\
-    (total <> 0 -> skipn 8 p = be64 ((total - 1) / 16)).
+    (total = start -> nth 15 p 0 = 255) /\
+    (total <> start -> skipn 8 p = be64 ((total - 1) / 16)).
 
   Definition ctr_inv (total : N) (s : st) : Prop :=
-    total < two64 /\ bytectr s = total /\ length (buf s) = 16%nat /\
+    start <= total /\ total < two64 /\ bytectr s = total /\ length (buf s) = 16%nat /\
     (total mod 16 <> 0 -> buf s = keystream E nonce (total / 16)) /\
     pblk_ok total (pblk s).
 
   Lemma ctr_inv_wf total s : ctr_inv total s -> st_wf s.
-  Proof. intros (_ & _ & Hb & _ & Hp & _). split; assumption. Qed.
+  Proof. intros (_ & _ & _ & Hb & _ & Hp & _). split; assumption. Qed.
 
-  Lemma init2_inv s : st_wf s -> ctr_inv 0 (init2 15 255 nonce s).
+  (* any object whose counter block is in the "just initialised" form, positioned at start *)
+  Lemma fresh_inv s :
+    st_wf s -> firstn 8 (pblk s) = be64 nonce -> nth 15 (pblk s) 0 = 255 ->
+    bytectr s = start -> start < two64 -> ctr_inv start s.
   Proof.
-    intros [Hb Hp]. unfold init2, ctr_inv, pblk_ok, upd_byte. cbn [bytectr buf pblk].
-    change (N.to_nat 15) with 15%nat.
-    assert (Hl : length (be64 nonce ++ skipn 8 (pblk s)) = 16%nat).
-    { rewrite app_length, skipn_length, be64_length, Hp. reflexivity. }
-    split; [reflexivity|]. split; [reflexivity|]. split; [exact Hb|].
-    split; [intros H; exfalso; apply H; reflexivity|].
-    split; [rewrite upd_length; exact Hl|].
-    split; [rewrite upd_firstn by lia; apply firstn_app_exact; apply be64_length|].
-    split.
-    - intros _. apply upd_nth_same. rewrite Hl. lia.
-    - intros H. exfalso. apply H. reflexivity.
+    intros [Hb Hp] Hn H15 Hc Hlt. unfold ctr_inv, pblk_ok.
+    split; [lia|]. split; [exact Hlt|]. split; [exact Hc|]. split; [exact Hb|].
+    split; [intros H; exfalso; apply H; exact start_aligned|].
+    split; [exact Hp|]. split; [exact Hn|]. split; [intros _; exact H15|].
+    intros H. exfalso. apply H. reflexivity.
   Qed.
 
   (* after generate the counter block is nonce || be64(block index), whatever pblk[8..14] were *)
   Lemma generate_ok total s : ctr_inv total s -> total mod 16 = 0 ->
     generate E s = Ok (mkst total (keystream E nonce (total / 16)) (be64 nonce ++ be64 (total / 16))).
   Proof.
-    intros (Hlt & Hb & Hbuf & Hks & Hlen & Hn & H0 & Hpos) Hm.
+    intros (Hle & Hlt & Hb & Hbuf & Hks & Hlen & Hn & H0 & Hpos) Hm.
     unfold generate, upd_byte. rewrite Hb.
     replace (total mod 16 =? 0) with true by (symmetry; apply N.eqb_eq; exact Hm). cbn [negb].
     rewrite upd_15 by exact Hlen.
     assert (Hf8 : forall v, firstn 8 (firstn 15 (pblk s) ++ [v]) = be64 nonce).
     { intros v. rewrite firstn_app, firstn_firstn, firstn_length, Hlen. cbn [Nat.min Nat.sub firstn].
       rewrite app_nil_r. exact Hn. }
-    destruct (N.eq_dec total 0) as [Hz | Hnz].
+    destruct (N.eq_dec total start) as [Hz | Hnz].
     - rewrite (H0 Hz). change ((255 + 1) mod 256) with 0. change (0 =? 0) with true. cbv iota.
       rewrite Hf8. reflexivity.
     - specialize (Hpos Hnz). set (d := (total - 1) / 16) in *.
@@ -335,14 +340,14 @@ Section Proofs.
       (done = true -> k = length inp) /\
       (done = false -> (total + N.of_nat k) mod 16 = 0).
   Proof.
-    intros Hinv Hbound. pose proof Hinv as (Hlt & Hb & Hbuf & Hks & Hlen & Hn & H0 & Hpos).
+    intros Hinv Hbound. pose proof Hinv as (Hle & Hlt & Hb & Hbuf & Hks & Hlen & Hn & H0 & Hpos).
     unfold pre_whole. rewrite Hb.
     destruct (total mod 16 =? 0) eqn:Hm; cbn [negb].
     - apply N.eqb_eq in Hm. exists 0%nat, s, false.
       cbn [firstn skipn xor_list N.of_nat]. rewrite N.sub_0_r, N.add_0_r.
       splits; try reflexivity; try assumption; try lia; try (intros; discriminate).
     - apply N.eqb_neq in Hm. specialize (Hks Hm).
-      assert (Hnz : total <> 0) by (intros ->; apply Hm; reflexivity).
+      assert (Hnz : total <> start) by (intros ->; apply Hm; exact start_aligned).
       specialize (Hpos Hnz).
       assert (Htot : total = 16 * (total / 16) + total mod 16) by lia.
       destruct (total mod 16 + N.of_nat (length inp) <=? 16) eqn:Hfit.
@@ -354,7 +359,7 @@ Section Proofs.
         split; [reflexivity|]. split; [lia|]. split; [|split; [reflexivity | intros; discriminate]].
         unfold ctr_inv, pblk_ok. cbn [bytectr buf pblk].
         rewrite (N.mod_small _ two64) by exact Hbound.
-        split; [exact Hbound|]. split; [reflexivity|]. split; [exact Hbuf|].
+        split; [lia|]. split; [exact Hbound|]. split; [reflexivity|]. split; [exact Hbuf|].
         split; [intros Hm'; rewrite Hks; f_equal; lia|].
         split; [exact Hlen|]. split; [exact Hn|]. split; [intros; lia|].
         intros _. rewrite Hpos. f_equal. lia.
@@ -367,7 +372,7 @@ Section Proofs.
         split; [reflexivity|]. split; [lia|]. split; [|split; [intros; discriminate | intros _; lia]].
         unfold ctr_inv, pblk_ok. cbn [bytectr buf pblk].
         rewrite (N.mod_small _ two64) by lia.
-        split; [lia|]. split; [reflexivity|]. split; [exact Hbuf|].
+        split; [lia|]. split; [lia|]. split; [reflexivity|]. split; [exact Hbuf|].
         split; [intros Hm'; exfalso; apply Hm'; lia|].
         split; [exact Hlen|]. split; [exact Hn|]. split; [intros; lia|].
         intros _. rewrite Hpos. f_equal. lia.
@@ -375,13 +380,13 @@ Section Proofs.
 
   (* the state after generate + use(n, 0) *)
   Lemma after_block total n :
-    total mod 16 = 0 -> 1 <= n <= 16 -> total + n < two64 ->
+    start <= total -> total mod 16 = 0 -> 1 <= n <= 16 -> total + n < two64 ->
     ctr_inv (total + n)
       (mkst ((total + n) mod two64) (keystream E nonce (total / 16)) (be64 nonce ++ be64 (total / 16))).
   Proof.
-    intros Hm Hn Hb. unfold ctr_inv, pblk_ok. cbn [bytectr buf pblk].
+    intros Hle Hm Hn Hb. unfold ctr_inv, pblk_ok. cbn [bytectr buf pblk].
     rewrite (N.mod_small _ two64) by exact Hb.
-    split; [exact Hb|]. split; [reflexivity|]. split; [apply keystream_length|].
+    split; [lia|]. split; [exact Hb|]. split; [reflexivity|]. split; [apply keystream_length|].
     split; [intros Hm2; f_equal; lia|].
     split; [rewrite app_length, !be64_length; reflexivity|].
     split; [apply firstn_app_exact; apply be64_length|].
@@ -414,7 +419,7 @@ Section Proofs.
         rewrite (use_spec _ inp _ 16 0 (total / 16)) by (cbn [buf]; try reflexivity; lia).
         cbn [bytectr buf pblk]. change (N.to_nat 16) with 16%nat.
         replace (16 * (total / 16) + 0) with total by lia.
-        assert (Hinv2 := after_block total 16 Hm ltac:(lia) ltac:(lia)).
+        assert (Hinv2 := after_block total 16 ltac:(destruct Hinv; assumption) Hm ltac:(lia) ltac:(lia)).
         replace (N.of_nat (length inp) - 16) with (N.of_nat (length (skipn 16 inp)))
           by (rewrite skipn_length; lia).
         destruct (IH (total + 16) _ (skipn 16 inp) Hinv2) as (k & s1 & Hw & Hk & Hrest & Hinv3 & Hm3).
@@ -448,7 +453,7 @@ Section Proofs.
       rewrite (use_spec _ inp _ _ 0 (total / 16)) by (cbn [buf]; try reflexivity; lia).
       cbn [bytectr buf pblk]. rewrite Nat2N.id, firstn_all.
       replace (16 * (total / 16) + 0) with total by lia.
-      eexists. split; [reflexivity|]. apply after_block; lia.
+      eexists. split; [reflexivity|]. apply after_block; try lia. destruct Hinv; assumption.
     - apply N.ltb_ge in Hpos. destruct inp; [|cbn in Hpos; lia].
       exists s. cbn. rewrite N.add_0_r. split; [reflexivity | exact Hinv].
   Qed.
@@ -555,7 +560,7 @@ Section Proofs.
     ctr_inv total s -> total mod 16 = 0 -> total + N.of_nat (length inp) < two64 ->
     mid_spec mid_aesni total s inp.
   Proof.
-    intros Hinv Hm Hbound. pose proof Hinv as (Hlt & Hb & Hbuf & Hks & Hlen & Hn & H0 & Hpos).
+    intros Hinv Hm Hbound. pose proof Hinv as (Hle & Hlt & Hb & Hbuf & Hks & Hlen & Hn & H0 & Hpos).
     unfold mid_spec, mid_aesni.
     destruct (16 <=? N.of_nat (length inp)) eqn:Hge.
     - apply N.leb_le in Hge. unfold wholeblocks_aesni. rewrite Hb.
@@ -567,7 +572,7 @@ Section Proofs.
         reflexivity.
       + unfold ctr_inv, pblk_ok. cbn [bytectr buf pblk].
         rewrite (N.mod_small _ two64) by lia.
-        split; [lia|]. split; [reflexivity|]. split; [exact Hbuf|].
+        split; [lia|]. split; [lia|]. split; [reflexivity|]. split; [exact Hbuf|].
         split; [intros Hm'; exfalso; apply Hm'; lia|].
         split; [rewrite app_length, firstn_length, be64_length; lia|].
         split; [rewrite firstn_app_exact by (rewrite firstn_length; lia); exact Hn|].
@@ -604,9 +609,9 @@ Section Proofs.
     (bytectr s1 mod 16 <> 0 -> buf s1 = buf s2).
 
   Lemma ctr_inv_obs total s1 s2 :
-    total <> 0 -> ctr_inv total s1 -> ctr_inv total s2 -> st_obs_eq s1 s2.
+    total <> start -> ctr_inv total s1 -> ctr_inv total s2 -> st_obs_eq s1 s2.
   Proof.
-    intros Hnz (_ & Hb1 & _ & Hk1 & _ & Hn1 & _ & Hp1) (_ & Hb2 & _ & Hk2 & _ & Hn2 & _ & Hp2).
+    intros Hnz (_ & _ & Hb1 & _ & Hk1 & _ & Hn1 & _ & Hp1) (_ & _ & Hb2 & _ & Hk2 & _ & Hn2 & _ & Hp2).
     unfold st_obs_eq. rewrite Hb1, Hb2. split; [reflexivity|]. split.
     - rewrite <- (firstn_skipn 8 (pblk s1)), <- (firstn_skipn 8 (pblk s2)).
       rewrite Hn1, Hn2, (Hp1 Hnz), (Hp2 Hnz). reflexivity.
@@ -628,13 +633,18 @@ Section Proofs.
     destruct (stream_spec total s inp Hinv Hbound) as (s2 & H2 & Hi2).
     exists s1, s2, (xor_list inp (ks_range total (length inp))).
     split; [exact H1|]. split; [exact H2|]. split; [|split; assumption].
-    destruct (N.eq_dec (total + N.of_nat (length inp)) 0) as [Hz | Hnz].
-    - (* no byte since init2 and nothing to do: both return the state unchanged *)
-      assert (total = 0) by lia. subst total.
+    destruct (N.eq_dec (total + N.of_nat (length inp)) start) as [Hz | Hnz].
+    - (* no byte since (re-)initialisation and nothing to do: both return the state unchanged *)
+      destruct Hinv as (Hle & _ & Hb & _).
+      assert (Hts : total = start) by lia. rewrite Hts in *. clear Hts.
       destruct inp; [|cbn [length] in Hz; lia].
-      destruct Hinv as (_ & Hb & _). destruct s as [b bf p]. cbn [bytectr] in Hb. subst b.
-      assert (Ha : stream_aesni E (mkst 0 bf p) [] = Ok (mkst 0 bf p, [])) by reflexivity.
-      assert (Hp : stream E (mkst 0 bf p) [] = Ok (mkst 0 bf p, [])) by reflexivity.
+      destruct s as [b bf p]. cbn [bytectr] in Hb. rewrite Hb in *. clear Hb.
+      assert (Ha : stream_aesni E (mkst start bf p) [] = Ok (mkst start bf p, [])).
+      { unfold stream_aesni, pre_whole, post_whole. cbn [bytectr length N.of_nat].
+        rewrite start_aligned. reflexivity. }
+      assert (Hp : stream E (mkst start bf p) [] = Ok (mkst start bf p, [])).
+      { unfold stream, pre_whole, post_whole. cbn [bytectr length N.of_nat whole].
+        rewrite start_aligned. reflexivity. }
       rewrite Ha in H1. rewrite Hp in H2. inversion H1. inversion H2.
       unfold st_obs_eq. splits; reflexivity.
     - apply (ctr_inv_obs (total + N.of_nat (length inp))); assumption.
@@ -666,6 +676,36 @@ Section Proofs.
   Qed.
   End Nonce.
 
+  (* M1, establishment: init2 from ANY prior contents of the object (pblk[8..14] keep them) *)
+  Lemma init2_fresh nonce s : st_wf s ->
+    let s' := init2 15 255 nonce s in
+    st_wf s' /\ firstn 8 (pblk s') = be64 nonce /\ nth 15 (pblk s') 0 = 255 /\ bytectr s' = 0.
+  Proof.
+    intros [Hb Hp]. unfold init2, st_wf, upd_byte. cbn [bytectr buf pblk].
+    change (N.to_nat 15) with 15%nat.
+    assert (Hl : length (be64 nonce ++ skipn 8 (pblk s)) = 16%nat).
+    { rewrite app_length, skipn_length, be64_length, Hp. reflexivity. }
+    split; [split; [exact Hb | rewrite upd_length; exact Hl]|].
+    split; [rewrite upd_firstn by lia; apply firstn_app_exact; apply be64_length|].
+    split; [apply upd_nth_same; rewrite Hl; lia | reflexivity].
+  Qed.
+
+  Lemma init2_inv nonce s : st_wf s -> ctr_inv nonce 0 0 (init2 15 255 nonce s).
+  Proof.
+    intros Hwf. destruct (init2_fresh nonce s Hwf) as (Hwf' & Hn & H15 & Hc).
+    apply fresh_inv; try assumption; reflexivity.
+  Qed.
+
+  (* the harness's white-box positioning at block B right after init2 *)
+  Lemma seek_inv nonce B s : st_wf s -> 16 * B < two64 ->
+    ctr_inv nonce (16 * B) (16 * B) (seek (16 * B) (init2 15 255 nonce s)).
+  Proof.
+    intros Hwf Hlt. destruct (init2_fresh nonce s Hwf) as (Hwf' & Hn & H15 & Hc).
+    apply fresh_inv; try assumption.
+    - lia.
+    - unfold seek. cbn [bytectr]. apply N.mod_small. exact Hlt.
+  Qed.
+
   (* M2: for every nonce, every prior contents of the stream object and every sequence of calls,
      the bytes written are ctr_spec of the concatenated input (and each call writes as many bytes
      as it was given), in either build configuration *)
@@ -677,10 +717,28 @@ Section Proofs.
       map (@length N) outs = map (@length N) chunks.
   Proof.
     intros hw nonce any chunks Hwf Hbound.
-    destruct (stream_all_spec nonce hw chunks 0 (init2 15 255 nonce any) (init2_inv nonce any Hwf))
+    destruct (stream_all_spec nonce 0 eq_refl hw chunks 0 (init2 15 255 nonce any) (init2_inv nonce any Hwf))
       as (s' & outs & Hs & Hcat & Hlens & _); [lia|].
     exists s', outs. split; [exact Hs|]. split; [|exact Hlens].
     rewrite Hcat. symmetry. apply ctr_spec_as_range.
+  Qed.
+
+  (* the same from a stream positioned at block B by the harness's white-box seek: the bytes are
+     the spec's keystream from block B on (this is what the seek cases of the correspondence run
+     are compared with) *)
+  Theorem ctr_seek_stream_correct : forall hw nonce B any chunks,
+    st_wf any -> 16 * B + N.of_nat (length (concat chunks)) < two64 ->
+    exists s' outs,
+      stream_all E hw (seek (16 * B) (init2 15 255 nonce any)) chunks = Ok (s', outs) /\
+      concat outs = ctr_spec_from E nonce B (concat chunks) /\
+      map (@length N) outs = map (@length N) chunks.
+  Proof.
+    intros hw nonce B any chunks Hwf Hbound.
+    assert (Hal : (16 * B) mod 16 = 0) by lia.
+    destruct (stream_all_spec nonce (16 * B) Hal hw chunks (16 * B) _ (seek_inv nonce B any Hwf ltac:(lia)))
+      as (s' & outs & Hs & Hcat & Hlens & _); [lia|].
+    exists s', outs. split; [exact Hs|]. split; [|exact Hlens].
+    rewrite Hcat. symmetry. apply ctr_spec_from_as_range.
   Qed.
 
   (* how the data is cut into calls does not matter *)
@@ -739,7 +797,7 @@ Theorem ctr_reinit_restarts :
         concat outs2 = ctr_spec E2 nonce2 (concat chunks).
 Proof.
   intros E1 E2 HE1 HE2 hw1 hw2 nonce1 nonce2 any history s1 outs1 chunks Hwf Hb1 Hrun Hb2.
-  destruct (stream_all_spec E1 HE1 nonce1 hw1 history 0 (init2 15 255 nonce1 any)
+  destruct (stream_all_spec E1 HE1 nonce1 0 eq_refl hw1 history 0 (init2 15 255 nonce1 any)
               (init2_inv E1 nonce1 any Hwf)) as (s1' & o1 & H1 & _ & _ & Hinv1); [lia|].
   rewrite Hrun in H1. inversion H1; subst s1' o1.
   apply ctr_inv_wf in Hinv1.
